@@ -8,11 +8,12 @@ PROPS="${*:-C03 C05 C06 C07 C08 C09 C10 C14 C15}"
 WT="${LEXSIM_WT:-/tmp/lexsim_mut_$$}"
 VERIF="$(cd "$(dirname "${BASH_SOURCE[0]}")/.." && pwd)"
 git -C /repo worktree add -q --detach "$WT" HEAD || exit 2
-cleanup() { git -C /repo worktree remove --force "$WT" 2>/dev/null; rm -rf "$WT"; rm -rf "$VERIF"/sim/gen-* "$VERIF"/sim/genr-*; }
+TAG="mut$$"
+cleanup() { git -C /repo worktree remove --force "$WT" 2>/dev/null; rm -rf "$WT"; rm -rf "$VERIF/sim/gen-$TAG" "$VERIF/sim/genr-$TAG" "$VERIF/sim/target-$TAG" "$VERIF/sim/.lock-gen-$TAG"; }
 trap cleanup EXIT
 if ! git -C "$WT" apply "$PATCH"; then echo "patch does not apply"; exit 2; fi
 for p in $PROPS; do
-    out="$(cd "$VERIF" && LEXSIM_REPO="$WT" LEXSIM_REPLAYS_DIR="/tmp/lexsim_mut_replays" LEXSIM_EVIDENCE_DIR="/tmp/lexsim_mut_evidence" ./check "$p" "${TIER:-quick}" 2>&1)"
+    out="$(cd "$VERIF" && LEXSIM_REPO="$WT" LEXSIM_TAG="$TAG" LEXSIM_REPLAYS_DIR="/tmp/lexsim_mut_replays" LEXSIM_EVIDENCE_DIR="/tmp/lexsim_mut_evidence" ./check "$p" "${TIER:-quick}" 2>&1)"
     code=$?
     nviol="$(echo "$out" | grep -c '^VIOLATION')"
     first="$(echo "$out" | grep -m1 '^finding' | cut -c1-220)"
